@@ -17,15 +17,22 @@ theorem iter_succ' {α : Type} (g : α → α) (k : Nat) (a : α) : Net.iter g (
 theorem clk_one (d : Design Int) (s : State Int) : clk d 1 s = clkCycle d (propagateAll d s) := rfl
 
 /-- **clk(n)**, any n -/
-theorem clk_corr (C : SeqCorr D f topo regs net) {r : Rd} {s : State Int} (h : SeqRel D f.assigns net r s) (n : Nat) :
+theorem clk_corr (C : SeqCorr D f topo regs net) {r : Rd} {s : State Int} (h : SeqRel D f.assigns net r s) (n : Nat)
+    (hg : ∀ i, i ≤ n → D.good (clk D.design i s).val) :
     SeqRel D f.assigns net (Net.iter (cycleA f) n r) (clk D.design n s) ∧
     (0 < n → Rel net D.wd (clk D.design n s).val (Net.iter (cycleA f) n r)) := by
   have hidem : C05.PropIdem D.design := C04.propIdem D.design D.comb C.sched.1
   induction n with
   | zero => exact ⟨h.propagate C, fun h0 => absurd h0 (Nat.lt_irrefl 0)⟩
   | succ n ih =>
+    have hg0 : D.good (propagateAll D.design (clk D.design n s)).val := by
+      have := hg n (Nat.le_succ n)
+      rw [show n = n + 0 from rfl, C05.clk_split D.design hidem n 0 s] at this
+      exact this
+    have hg1 : D.good (clk D.design 1 (clk D.design n s)).val := by
+      rw [← C05.clk_split D.design hidem n 1 s]; exact hg (n + 1) (Nat.le_refl _)
     rw [C05.clk_split D.design hidem n 1 s, iter_succ']
-    have := cycle_corr C ih.1
+    have := cycle_corr C (ih (fun i hi => hg i (Nat.le_succ_of_le hi))).1 hg0 hg1
     exact ⟨this.1, fun _ => this.2⟩
 
 /-- `n` is THE top-level input name of net `k`: it denotes `k`, no assign drives it, no other undriven name denotes
@@ -81,22 +88,46 @@ def OpOK (f : V.Flat) (regs : List RegI) (net : String → Option Nat) (inName :
   | .poke k v => IsInput f regs net k (inName k) ∧ 0 ≤ v
   | _ => True
 
+/-- the side condition `D.good` holds at every settle of the operation (before every clock edge and after the last) -/
+def GoodOp (D : NetD) (s : State Int) : Op → Prop
+  | .clk n => ∀ i, i ≤ n → D.good (clk D.design i s).val
+  | _ => True
+
+/-- … of every operation of a run from `s` -/
+def GoodRun (D : NetD) : State Int → List Op → Prop
+  | _, [] => True
+  | s, op :: ops => GoodOp D s op ∧ GoodRun D (applyOp D.design s op) ops
+
+theorem goodRun_of_all (D : NetD) (h : ∀ V, D.good V) (s : State Int) (ops : List Op) : GoodRun D s ops := by
+  induction ops generalizing s with
+  | nil => trivial
+  | cons op ops ih =>
+    refine ⟨?_, ih _⟩
+    cases op <;> simp [GoodOp, h]
+
+theorem goodRun_append (D : NetD) (s : State Int) (a b : List Op) :
+    GoodRun D s (a ++ b) ↔ GoodRun D s a ∧ GoodRun D (a.foldl (applyOp D.design) s) b := by
+  induction a generalizing s with
+  | nil => simp [GoodRun]
+  | cons op a ih => simp [GoodRun, ih, and_assoc]
+
 theorem op_corr (C : SeqCorr D f topo regs net) (inName : Nat → String) {r : Rd} {s : State Int}
-    (h : SeqRel D f.assigns net r s) (op : Op) (hop : OpOK f regs net inName op) :
+    (h : SeqRel D f.assigns net r s) (op : Op) (hop : OpOK f regs net inName op) (hg : GoodOp D s op) :
     SeqRel D f.assigns net (applyOpA f inName r op) (applyOp D.design s op) := by
   cases op with
   | poke k v => exact poke_corr C h k (inName k) hop.1 v hop.2
-  | clk n => exact (clk_corr C h n).1
+  | clk n => exact (clk_corr C h n hg).1
   | resort => exact h
 
 theorem ops_corr (C : SeqCorr D f topo regs net) (inName : Nat → String) (ops : List Op)
-    (hops : ∀ op, op ∈ ops → OpOK f regs net inName op) {r : Rd} {s : State Int} (h : SeqRel D f.assigns net r s) :
+    (hops : ∀ op, op ∈ ops → OpOK f regs net inName op) {r : Rd} {s : State Int} (h : SeqRel D f.assigns net r s)
+    (hg : GoodRun D s ops) :
     SeqRel D f.assigns net (ops.foldl (applyOpA f inName) r) (ops.foldl (applyOp D.design) s) := by
   induction ops generalizing r s with
   | nil => exact h
   | cons op ops ih =>
     simp only [List.foldl]
-    exact ih (fun o ho => hops o (by simp [ho])) (op_corr C inName h op (hops op (by simp)))
+    exact ih (fun o ho => hops o (by simp [ho])) (op_corr C inName h op (hops op (by simp)) hg.1) hg.2
 
 /-! ### power-up -/
 
@@ -174,14 +205,16 @@ theorem powerup_corr (C : SeqCorr D f topo regs net) {r : Rd} (h : PowerUp D f r
 /-- **every run from power-up**: after ANY sequence of covered test-bench operations the two machines are in
     corresponding states -/
 theorem run_corr (C : SeqCorr D f topo regs net) (inName : Nat → String) {r0 : Rd} (h0 : PowerUp D f regs net r0)
-    (ops : List Op) (hops : ∀ op, op ∈ ops → OpOK f regs net inName op) :
+    (ops : List Op) (hops : ∀ op, op ∈ ops → OpOK f regs net inName op)
+    (hg : GoodRun D (initC D.design D.st0 D.cons) ops) :
     SeqRel D f.assigns net (ops.foldl (applyOpA f inName) r0) (runC D.design D.st0 D.cons ops) :=
-  ops_corr C inName ops hops (powerup_corr C h0)
+  ops_corr C inName ops hops (powerup_corr C h0) hg
 
 /-- reading after settling on both sides -/
-theorem observe_corr (C : SeqCorr D f topo regs net) {r : Rd} {s : State Int} (h : SeqRel D f.assigns net r s) :
+theorem observe_corr (C : SeqCorr D f topo regs net) {r : Rd} {s : State Int} (h : SeqRel D f.assigns net r s)
+    (hg : D.good (propagateAll D.design s).val) :
     Rel net D.wd (propagateAll D.design s).val (settleA f.assigns r) :=
-  comb_corr C.sched C.comb s h.inv r h.info h.und _ (Nat.le_refl _)
+  comb_corr C.sched C.comb s h.inv r h.info h.und hg _ (Nat.le_refl _)
 
 end Run
 end FlatM
